@@ -61,6 +61,7 @@ public:
     Importer *mImporter = nullptr;
 
     ImportLibrary mLibrary;
+    std::map<std::string, std::vector<IssuePtr>> mLibraryErrors; /**< The errors found in a library model when it was read. */
 
     std::vector<ImportSourcePtr> mImports;
     std::vector<ImportSourcePtr>::const_iterator findImportSource(const ImportSourcePtr &importSource) const;
@@ -403,11 +404,19 @@ bool Importer::ImporterImpl::fetchModel(const ImportSourcePtr &importSource, con
                     return false;
                 }
                 addIssue(parser->error(index));
+                mLibraryErrors[url].push_back(parser->error(index));
             }
         }
         mLibrary.insert(std::make_pair(url, model));
     } else {
         model = mLibrary[url];
+        // The errors found when this model was read concern every import from it, not only the first one.
+        auto libraryErrors = mLibraryErrors.find(url);
+        if (libraryErrors != mLibraryErrors.end()) {
+            for (const auto &error : libraryErrors->second) {
+                addIssue(error);
+            }
+        }
     }
     importSource->setModel(model);
     return true;
@@ -1088,6 +1097,7 @@ bool Importer::replaceModel(const ModelPtr &model, const std::string &key)
         return false;
     }
     pFunc()->mLibrary[normalisedKey] = model;
+    pFunc()->mLibraryErrors.erase(normalisedKey);
     return true;
 }
 
@@ -1108,6 +1118,7 @@ std::string Importer::key(const size_t &index)
 void Importer::removeAllModels()
 {
     pFunc()->mLibrary.clear();
+    pFunc()->mLibraryErrors.clear();
 }
 
 bool Importer::hasImportSource(const ImportSourcePtr &importSource) const
